@@ -40,6 +40,7 @@ UPD = {
  "C03-5": ({"C03": 0, "C10": 1}, "C03's models have no delays; delayed models under the fixed-step solvers are C10's run arm, which catches it (two distinct lags)"),
  "C12-6": ({"C12": 1}, "missed at first; C12 draws the names sympy uses for cse temporaries (x0, x1, ...) for parameters and states"),
  
+ "C01-6": ({"C01": 1, "C04": 1}, "missed at first by C01 (caught by C04's cross_type arm); C01 has the vf_cross_type arm now (scalar source, ten and more merged targets through the indexed edge path)"),
  "C04-5": ({"C04": 1, "C09": 1, "C10": 1}, "missed at first; C04's traj arm now delays subsets of the edges"),
  "C05-5": ({"C05": 0, "C01": 1}, "needs two operators with the same variable name next to a user variable named like the generated label: C05's arms compile single operators; caught by C01 (collision names)"),
  "C05-6": ({"C05": 1}, "missed at first; C05 has the special_names arm (a name with another meaning is refused or means the declared variable). The patch was re-based by hand after the repair F-05k touched the same list"),
